@@ -304,3 +304,45 @@ Proof.
   intros Hc Hch Hco Hops. destruct (api_history_continuous_unchunked c ops Hc Hch Hco Hops) as (_ & HR & _).
   apply InvU_full_block. exact (ru_inv _ _ _ HR).
 Qed.
+
+(* ------------------------------------------------------------------ the counters (C19)
+   total_samples_written is the number of samples of the accepted calls -- every history, every mode,
+   no hypothesis; with counters_sum_all_histories (written + gap = next) the gap counter is the number
+   of indices below the cursor that no accepted call covered. *)
+Definition accepted_len (c : cfg) (ps : pystate) (op : apiop) : Z :=
+  if fst (fst (api_call c ps op)) =? OK
+  then match op with AWrite _ vec => zlen vec | ABlocks _ _ vec => zlen vec end
+  else 0.
+
+Fixpoint accepted_total (c : cfg) (ps : pystate) (ops : list apiop) : Z :=
+  match ops with
+  | [] => 0
+  | op :: tl => accepted_len c ps op + accepted_total c (api_state c ps op) tl
+  end.
+
+Lemma api_written_step c ps op : p_written (api_state c ps op) = p_written ps + accepted_len c ps op.
+Proof.
+  unfold api_state, accepted_len. destruct op as [ns vec|G D vec]; cbn [api_call].
+  - unfold py_rf_write.
+    destruct (_ <? p_next ps); [cbn; lia|]. destruct (p_closed ps); [cbn; lia|].
+    destruct (write_one c (p_w ps) _ vec) as [rc w']. destruct (negb (rc =? 0)); cbn; unfold zlen; lia.
+  - unfold py_rf_write_blocks.
+    destruct G as [|g0 G']; [cbn; lia|]. destruct D as [|d0 D']; [cbn; lia|].
+    repeat match goal with
+           | |- context [if ?b then _ else _] =>
+             lazymatch b with
+             | negb (_ =? 0) && _ => fail
+             | _ => destruct b; [cbn; lia|]
+             end
+           end.
+    all: try (cbn; lia).
+    destruct (if c_cont c && (1 <? Z.of_nat (length (g0 :: G'))) then _ else _) as [rc w'].
+    destruct (negb (rc =? 0)); cbn; unfold zlen; lia.
+Qed.
+
+Theorem written_is_accepted_total c ops : forall ps,
+  p_written (fold_left (api_state c) ops ps) = p_written ps + accepted_total c ps ops.
+Proof.
+  induction ops as [|op tl IH]; intros ps; cbn [fold_left accepted_total]; [lia|].
+  rewrite IH, api_written_step. lia.
+Qed.
